@@ -47,10 +47,11 @@ type Ctx struct {
 	Notes []string
 	// Analysed functions (names), for the evidence.
 	analysed map[string]bool
+	touched  map[*ssa.Function]bool
 }
 
 func NewCtx(p *Prog, prop, tier string) *Ctx {
-	return &Ctx{P: p, Prop: prop, Tier: tier, analysed: map[string]bool{}}
+	return &Ctx{P: p, Prop: prop, Tier: tier, analysed: map[string]bool{}, touched: map[*ssa.Function]bool{}}
 }
 
 // Touch records that a function was analysed.
@@ -58,6 +59,7 @@ func (c *Ctx) Touch(fns ...*ssa.Function) {
 	for _, f := range fns {
 		if f != nil {
 			c.analysed[c.P.FnName(f)] = true
+			c.touched[f] = true
 		}
 	}
 }
